@@ -184,7 +184,9 @@ ExternalAbandon ==
 (* worker threads of the pool: save_file(chunk) *)
 Worker(c, fail) ==
   /\ outcome = "running" /\ wpc[c] \in {"opentmp", "writetmp", "renamechunk"}
-  /\ IF fail \/ ~temp.exists THEN /\ wpc' = [wpc EXCEPT ![c] = "failed"] /\ UNCHANGED temp
+  /\ IF fail \/ (~temp.exists /\ wpc[c] # "writetmp")     \* the temp directory was renamed away under the worker
+     THEN /\ wpc' = [wpc EXCEPT ![c] = "failed"] /\ UNCHANGED temp
+     ELSE IF ~temp.exists THEN /\ wpc' = [wpc EXCEPT ![c] = "renamechunk"] /\ UNCHANGED temp   \* writes into the open handle
      ELSE CASE wpc[c] = "opentmp" -> temp' = [temp EXCEPT !.file[c] = "empty"] /\ wpc' = [wpc EXCEPT ![c] = "writetmp"]
             [] wpc[c] = "writetmp" -> temp' = [temp EXCEPT !.file[c] = "tmp"] /\ wpc' = [wpc EXCEPT ![c] = "renamechunk"]
             [] wpc[c] = "renamechunk" -> temp' = [temp EXCEPT !.file[c] = "ok"] /\ wpc' = [wpc EXCEPT ![c] = "done"]
